@@ -24,6 +24,7 @@ def export_words(_req=None):
         rel = info.get("relative-type", {})
         out["langs"][lang] = {"months": [(info.get(k) or [""])[0] for k in MKEYS], "weekdays": [(info.get(k) or [""])[0] for k in WKEYS],
                               "rel": [(rel.get(k) or [""])[0] for k in ("1 day ago", "in 1 day", "0 day ago")],
+                              "skip": [str(x) for x in (info.get("skip") or [])][:12], "pertain": [str(x) for x in (info.get("pertain") or [])][:6],
                               "locales": list(language_locale_dict.get(lang, []))}
     return out
 
